@@ -37,6 +37,8 @@ import PyElf.Proofs.GnuTruncated
 import PyElf.Proofs.GnuExamples
 import PyElf.Props.C01
 import PyElf.Props.TieC15
+import PyElf.Model.VerCache
+import PyElf.Proofs.SigCache
 namespace PyElf.Props.C15
 open PyElf PyElf.Spec PyElf.Model PyElf.Proofs
 
@@ -248,6 +250,31 @@ example : symsAt 64 true exVersymData 8 32 72 0 exRows = true := by decide
      and chains that leave the file (`*_truncated`). -/
 
 section wave4
+/-! ### the cache `_has_indexes` -/
+
+/-- has_indexes_history_independent.  For ANY section bytes (well formed or not): the k-th call of `has_indexes()` on
+    one `GNUVerNeedSection` object answers what a fresh object answers (`VerSec.hasIndexes`, the function
+    `need_has_indexes_exact` and the `*_truncated` theorems are about) — in particular a walk that raises, raises again
+    on every later call.  FALSE of the code before fix has-indexes-cached-before-walk (`_has_indexes = False` was
+    assigned before the walk: first call ELFParseError, second call `False`).  The driver answers a three-call history
+    through this model and the harness compares it with three calls on one live object. -/
+theorem has_indexes_history_independent (env : Env) (vs : VerSec) (k : Nat) :
+    (vs.hasIndexesHist env k).1 = List.replicate k (vs.hasIndexes env) := by
+  unfold VerSec.hasIndexesHist
+  rw [(Proofs.SigCache.run_answers _ _ _ _ (Proofs.SigCache.inv_init _)).1, List.map_replicate]
+  congr 1
+  unfold Model.SigCache.stateless VerSec.hasIndexesScan
+  cases vs.hasIndexes env <;> rfl
+
+/-- a walk that raised leaves nothing behind -/
+theorem has_indexes_failed_walk_publishes_nothing (env : Env) (vs : VerSec) (e : Err) (he : vs.hasIndexes env = .error e)
+    (k : Nat) : (vs.hasIndexesHist env k).2.map.isSome = false := by
+  unfold VerSec.hasIndexesHist
+  rw [Proofs.SigCache.run_published]
+  unfold VerSec.hasIndexesScan
+  rw [he]
+  simp
+
 open PyElf.Spec.C15 PyElf.Model.C15 PyElf.Proofs.C15
 
 /-! ### 1. the assembler satisfies the layout predicates -/
